@@ -112,7 +112,10 @@ func (e *ExecutionConfig) ProposerConfig(_ context.Context,
 
 	// At this point we definitely have a proposer config, however
 	// if it was the default config it is possible that some elements
-	// are missing.  Fill them in here.
+	// are missing.  Fill them in here, on a copy so that the shared
+	// configuration is not altered by (concurrent) lookups.
+	tmp := *proposerConfig
+	proposerConfig = &tmp
 	if proposerConfig.GasLimit == 0 {
 		proposerConfig.GasLimit = fallbackGasLimit
 	}
